@@ -40,8 +40,11 @@ def check(run):
         b2 = run.borrow("C05", only=r"field:(modifier_option|mask)\b", why="redirect rules with different targets must not be fused")
         run.guard("C13.via.C05.1.fusion-key", cfg, lambda: _C05.rule_key(b2, F, cfg))
         from . import C03 as _C03
-        b3 = run.borrow("C03", only=r"flags-set-true|name:redirect|bit:redirect", why="$redirect / $redirect-rule must set IS_REDIRECT (and ALSO_BLOCK_REDIRECT)")
-        run.guard("C13.via.C03.1.option-chain", cfg, lambda: (_C03.rule_chain(b3, F, cfg), _C03.rule_polarity(b3, F, cfg)))
+        b3 = run.borrow("C03", only=r"flags-set-true|name:redirect|bit:redirect|string-payloads-verbatim", why="$redirect / $redirect-rule must set IS_REDIRECT (and ALSO_BLOCK_REDIRECT)")
+        run.guard("C13.via.C03.1.option-chain", cfg, lambda: (_C03.rule_chain(b3, F, cfg), _C03.rule_polarity(b3, F, cfg), _C03.rule_payloads(b3, F, cfg)))
+        from . import C07 as _C07g
+        bg = run.borrow("C07", only=r"check_all", why="every matching rule of the list is collected by check_all")
+        run.guard("C13.via.C07.2.gate-shape", cfg, lambda: _C07g.rule_gate_shape(bg, F, cfg))
 
 
 def rule_gate(run, F, cfg):
